@@ -4,7 +4,7 @@ A program spec is a JSON dict:
   {"pkg": name, "modules": [names], "classes": [{name, module, bases, outer}],
    "funcs": [{fid, name, module, cls, kind, params, body, wrapx, inner, annotate}]}
 
-kinds : func | wrapped | method | classmethod | staticmethod | property | sproperty (settable; not resolvable)
+kinds : func | wrapped | method | classmethod | staticmethod | property | cproperty (functools.cached_property) | sproperty (settable; not resolvable)
 body  : plain | gen | coro | agen (async generator: yields and awaits)
 params: [{"n": name, "k": "po"|"pk"|"ko"|"var"|"kw", "d": has_default}]
 inner : optional nested function {fid, params, body} defined inside this function's body and only
@@ -14,6 +14,7 @@ Every body is the same small interpreter over a *script* (a tuple of action tupl
 simulator hands over on a stack right before the call; the function's kind / signature / exits are
 real Python (real frames, real opcodes: RETURN_VALUE, RETURN_CONST, YIELD_VALUE, RAISE_VARARGS...).
 """
+import functools
 import importlib
 import sys
 import types
@@ -295,6 +296,8 @@ def render_func(f, ind=0, annotations=None):
         L.append(f"{i}@staticmethod")
     elif kind in ("property", "sproperty"):
         L.append(f"{i}@property")
+    elif kind == "cproperty":
+        L.append(f"{i}@_functools.cached_property")
     sig = render_sig(f["params"], (annotations or {}).get("params"))
     ret = ""
     if annotations and annotations.get("ret"):
@@ -499,6 +502,8 @@ def load(spec, root=None):
                 raw = raw.__func__
             elif isinstance(raw, property):
                 raw = raw.fget
+            elif isinstance(raw, functools.cached_property):
+                raw = raw.func
         else:
             raw = lp.modules[f["module"]].__dict__[f["name"]]
             while hasattr(raw, "__wrapped__"):
@@ -614,7 +619,8 @@ def gen_spec(rng, kn=None, pkg="simpkg"):
     for c in classes:
         nm = rng.choice([1, 2, 3])
         for _ in range(nm):
-            kind = rng.choice(["method"] * 4 + ["classmethod", "staticmethod", "property"] + (["sproperty"] if kn.get("unknown_kinds") else []))
+            kind = rng.choice(["method"] * 4 + ["classmethod", "staticmethod", "property"] + (["sproperty"] if kn.get("unknown_kinds") else []) +
+                              (["cproperty"] if kn.get("cached_props") else []))
             base_methods = [f for f in funcs if f.get("cls") in _ancestors(classes, c["name"]) and f["kind"] in ("method", "classmethod", "property")]
             if base_methods and kn.get("overrides", True) and rng.random() < 0.5:
                 bm = rng.choice(base_methods)
@@ -625,8 +631,8 @@ def gen_spec(rng, kn=None, pkg="simpkg"):
             else:
                 n = "m%d" % (len(mnames) + 1)
                 mnames[n] = 1
-                body = "plain" if kind in ("property", "sproperty") else rng.choice(bodies)
-                if kind in ("property", "sproperty"):
+                body = "plain" if kind in ("property", "sproperty", "cproperty") else rng.choice(bodies)
+                if kind in ("property", "sproperty", "cproperty"):
                     params = [{"n": "self", "k": "pk", "d": False}]
                 elif kind == "method":
                     params = gen_params(rng, kn, "self")
